@@ -48,7 +48,7 @@ func TestRaceConcurrentPlans(t *testing.T) {
 		t.Skip("child")
 	}
 	work := workDir()
-	logBase := filepath.Join(work, fmt.Sprintf("c08-race-%d", os.Getpid()))
+	logBase := filepath.Join(work, fmt.Sprintf("verif-c08-race-%d", os.Getpid()))
 	checks := os.Getenv("VERIF_C08_RACE_CHECKS")
 	if checks == "" {
 		checks = "150"
@@ -82,8 +82,8 @@ func TestRaceConcurrentPlans(t *testing.T) {
 				continue
 			}
 			sig := classifyRace(rep)
-			if sig != "" && ev.IsKnown("C08", sig) {
-				recRace.KnownHit(sig)
+			if sig != "" && isKnown(sig) {
+				recRace.KnownHit(listedSig(sig))
 				continue
 			}
 			t.Errorf("SIG=C08/%s data race reported on credential state while concurrent management requests ran:\n%s", sig, firstLines(rep, 40))
